@@ -85,3 +85,6 @@ package respondent
 //@   ensures name == protocol.OptionTTL ==> isnil(result1) && result0 == iface(s.ttl)
 //@
 // ---- end generated option contracts ----
+//@
+//@ func (*pipe).receiver
+//@   before go:close#1 assert m == nil || selidx == 2
